@@ -22,6 +22,7 @@ type Config struct {
 	Solver      string // z3 | z3-new | cvc5 : FP-free queries
 	FPSolver    string // solver for queries that mention floating point
 	TimeoutMs   int    // per query
+	FPTimeoutMs int    // per floating-point query (default min(TimeoutMs, 60 s))
 	MapOrderMax int    // maps with 2..k entries are ranged in every order
 	Workers     int
 	Verbose     bool
@@ -295,8 +296,28 @@ func (i *interpreter) assume(c *Term) {
 
 // fp returns the FP-capable solver process (used only for standalone sliced queries).
 func (i *interpreter) fp() *Solver {
+	// standalone queries are stateless: a dead (memory limit) or long-lived (cvc5 leaks under
+	// push/pop) process is simply replaced; counters carry over
+	if old := i.fsolver; old != nil && (old.dead || old.Queries-old.bornAt >= 150) {
+		old.Close()
+		i.fsolver = nil
+		defer func(old *Solver) {
+			n := i.fsolver
+			if n == nil {
+				return
+			}
+			n.Queries, n.Sat, n.Unsat, n.Unknown, n.Errors, n.SolveTime = old.Queries, old.Sat, old.Unsat, old.Unknown, old.Errors, old.SolveTime
+			n.bornAt = old.Queries
+		}(old)
+	}
 	if i.fsolver == nil {
-		s, err := NewSolver(i.cfg.FPSolver, i.st, i.cfg.TimeoutMs)
+		to := i.cfg.TimeoutMs
+		if i.cfg.FPTimeoutMs > 0 {
+			to = i.cfg.FPTimeoutMs
+		} else if to > 60000 {
+			to = 60000
+		}
+		s, err := NewSolver(i.cfg.FPSolver, i.st, to)
 		if err != nil {
 			i.abort(abortInternal, "cannot start FP solver: "+err.Error())
 		}
@@ -1005,6 +1026,8 @@ type Program struct {
 	Pkgs  map[string]*ssa.Package
 }
 
+const recycleTerms = 400_000
+
 // Explore runs harness fn to exhaustion (or MaxPaths) with cfg.Workers workers.
 func (p *Program) Explore(fn *ssa.Function, cfg Config) *HarnessReport {
 	t0 := time.Now()
@@ -1017,6 +1040,51 @@ func (p *Program) Explore(fn *ssa.Function, cfg Config) *HarnessReport {
 	stop := false
 	seenFinding := map[string]bool{}
 
+	// flush adds a worker's solver / coverage statistics to the report (mu held)
+	flush := func(i *interpreter) {
+		s := i.solver
+		rep.Queries += s.Queries
+		rep.Sat += s.Sat
+		rep.Unsat += s.Unsat
+		rep.Unknown += s.Unknown
+		rep.SolverErr += s.Errors
+		rep.SolverTime += s.SolveTime
+		if i.fsolver != nil {
+			f := i.fsolver
+			rep.Queries += f.Queries
+			rep.Sat += f.Sat
+			rep.Unsat += f.Unsat
+			rep.Unknown += f.Unknown
+			rep.SolverErr += f.Errors
+			rep.SolverTime += f.SolveTime
+			rep.FPQueries += f.Queries
+		}
+		if i.xsolver != nil {
+			rep.Queries += i.xsolver.Queries
+			rep.SolverTime += i.xsolver.SolveTime
+			rep.SolverErr += i.xsolver.Errors
+		}
+		for f, n := range i.callLog {
+			name := f.String()
+			rep.FuncCalls[name] += n
+			if _, ok := rep.Funcs[name]; !ok {
+				cnt := 0
+				for _, b := range f.Blocks {
+					cnt += len(b.Instrs)
+				}
+				rep.Funcs[name] = cnt
+			}
+		}
+		rep.MapRangesForked += i.mapRangesForked
+		rep.MapRangesFixed += i.mapRangesFixed
+		for k, v := range i.fixedRangeSites {
+			rep.FixedSites[k] += v
+		}
+		rep.NonASCII += i.nonASCIITotal
+		for k, v := range i.whyCount {
+			rep.WhyCount[k] += v
+		}
+	}
 	worker := func(id int) {
 		i, err := p.newInterp(&cfg, fn.Name(), id)
 		if err != nil {
@@ -1027,7 +1095,7 @@ func (p *Program) Explore(fn *ssa.Function, cfg Config) *HarnessReport {
 			mu.Unlock()
 			return
 		}
-		defer i.close()
+		defer func() { i.close() }()
 		for {
 			mu.Lock()
 			for len(queue) == 0 && inflight > 0 && !stop {
@@ -1045,6 +1113,19 @@ func (p *Program) Explore(fn *ssa.Function, cfg Config) *HarnessReport {
 			mu.Unlock()
 
 			res := i.runPath(fn, prefix)
+			// hash-consed terms are never freed: recycle the worker (term store and solver
+			// processes) once its store is large; paths are replayed from their decision
+			// prefixes, so nothing but caches is lost
+			if len(i.st.tab) > recycleTerms {
+				ni, err := p.newInterp(&cfg, fn.Name(), id)
+				if err == nil {
+					mu.Lock()
+					flush(i)
+					mu.Unlock()
+					i.close()
+					i = ni
+				}
+			}
 
 			mu.Lock()
 			inflight--
@@ -1103,48 +1184,7 @@ func (p *Program) Explore(fn *ssa.Function, cfg Config) *HarnessReport {
 			mu.Unlock()
 		}
 		mu.Lock()
-		s := i.solver
-		rep.Queries += s.Queries
-		rep.Sat += s.Sat
-		rep.Unsat += s.Unsat
-		rep.Unknown += s.Unknown
-		rep.SolverErr += s.Errors
-		rep.SolverTime += s.SolveTime
-		if i.fsolver != nil {
-			f := i.fsolver
-			rep.Queries += f.Queries
-			rep.Sat += f.Sat
-			rep.Unsat += f.Unsat
-			rep.Unknown += f.Unknown
-			rep.SolverErr += f.Errors
-			rep.SolverTime += f.SolveTime
-			rep.FPQueries += f.Queries
-		}
-		if i.xsolver != nil {
-			rep.Queries += i.xsolver.Queries
-			rep.SolverTime += i.xsolver.SolveTime
-			rep.SolverErr += i.xsolver.Errors
-		}
-		for f, n := range i.callLog {
-			name := f.String()
-			rep.FuncCalls[name] += n
-			if _, ok := rep.Funcs[name]; !ok {
-				cnt := 0
-				for _, b := range f.Blocks {
-					cnt += len(b.Instrs)
-				}
-				rep.Funcs[name] = cnt
-			}
-		}
-		rep.MapRangesForked += i.mapRangesForked
-		rep.MapRangesFixed += i.mapRangesFixed
-		for k, v := range i.fixedRangeSites {
-			rep.FixedSites[k] += v
-		}
-		rep.NonASCII += i.nonASCIITotal
-		for k, v := range i.whyCount {
-			rep.WhyCount[k] += v
-		}
+		flush(i)
 		mu.Unlock()
 	}
 	var wg sync.WaitGroup
